@@ -247,12 +247,21 @@ Section Geo.
       end.
   End Wave.
 
-  (** [quadtree.search] on a root node *)
+  (** [quadtree.search] on a root node.  [quadtree_search_has_fallback] is read from the source on
+      every run: the pinned code returns the result of the wave; the repaired code (proposed fix
+      C12-quadtree-search-fallback) falls back, when the wave finds nothing, on the first of the
+      root's elements whose bounding box and polygon contain the point. *)
   Definition search (t : qtree) (pos : pt) : option positive :=
     match leaf t pos with
     | Some l =>
-        wave (qelements t) (qbounds l) pos
-             (length (qelements l) + length (qelements t)) (qelements l) []
+        match wave (qelements t) (qbounds l) pos
+                   (length (qelements l) + length (qelements t)) (qelements l) [] with
+        | Some e => Some e
+        | None =>
+            if quadtree_search_has_fallback
+            then find (fun e => near_point e pos && contains_point e pos) (qelements t)
+            else None
+        end
     | None => None
     end.
 
